@@ -1,11 +1,11 @@
 SPECIFICATION Spec
 CONSTANTS
-  CurveNames = {"E13", "E16M3"}
+  CurveNames = {"E13"}
   Bases = {1, 1000}
   KFrom = 0
   KTo = 0
   Stride = 4
-  DStride = 64
+  DStride = 16
 INVARIANTS Closed Cycle Ladder Special DblOk
 CONSTRAINT Emit
 CHECK_DEADLOCK FALSE
